@@ -1,10 +1,33 @@
-(* Properties_C16.v — obligations of property C16.  Contains only theorem statements closed by
-   `exact <lemma>` and Print Assumptions. *)
-Require Import ObsRun.
+(* Properties_C16.v — obligations of property C16 (text buffers are always well-formed, printable
+   and terminated). *)
+Require Import ObsRun Lemmas_WF Lemmas_Tables.
 Local Open Scope Z_scope.
 
-(* non-vacuity: the observer of C16 is evaluated (and holds) along a run of the model that
-   touches every group kind *)
+(* After EVERY call of EVERY call sequence, each of the four texts shown by the getters has its
+   capacity (8, 64, 64, 8), terminator 0, every level in 0..10, level 10 => character ' ',
+   every character printable (>= 0x20, not 0x7F..0x9F) or the end-of-text marker 0 and one of the
+   character table, availability = some level <> 10, length = index of the first 0 or the
+   capacity.  Stated for the character table measured on the compiled library. *)
+Theorem C16_always : forall h s b, reach conv_u lut_g h s -> obs_C16_snap conv_u b (snap_of s) = true.
+Proof.
+  exact (wf_always conv_u lut_g (proj1 (conv_printable_spec conv_u conv_unicode_printable))
+                   (proj2 (conv_printable_spec conv_u conv_unicode_printable))).
+Qed.
+Print Assumptions C16_always.
+
+(* availability <=> some cell has been received: the ghost "reception accepted since reset"
+   flag of the model coincides with level <> uncorrectable *)
+Theorem C16_received_iff_level : forall conv lut h s sl c, reach conv lut h s ->
+  In c (get_text sl s) -> (rx c = true <-> lv c <> 10).
+Proof. exact received_iff_level. Qed.
+Print Assumptions C16_received_iff_level.
+
+(* every stored character of the table is printable (kernel-evaluated over all 224 entries) *)
+Theorem C16_charset_printable : conv_printable_ok conv_u = true.
+Proof. exact conv_unicode_printable. Qed.
+Print Assumptions C16_charset_printable.
+
+(* PARTIAL: obs_C16 additionally checks the text samples handed to callbacks; that conjunct is
+   only evaluated (on the model here, on the library by the check), not proved for all runs *)
 Example C16_scenario : check_run_u (observer_u 16) scenario = true.
 Proof. vm_compute. reflexivity. Qed.
-Print Assumptions C16_scenario.
